@@ -1,5 +1,65 @@
-import Ecal.Drivers.Util
+import Ecal.Drivers.EvalCommon
+import Ecal.Model.EvalObjects
+/-!
+Driver of C05. Payload: `evPayload` sections joined by ` @ ` — the program, then the probe
+expressions (see go/cmd/harness/c05.go). All sections are evaluated by `Ecal.Ev.eval` one after the
+other in ONE global scope and ONE state. Result:
+
+  `<outcome of the program>;<outcome of probe 1>;…;G <canonical dump of the global scope>;LOG <trace>`
+
+with outcome = `OK <canonical value> | ERR <type-hex> | ERRPLAIN | NOPARSE | V ERR <type-hex>`.
+A section that leaves the model makes the whole case `UNSUP …` (not compared), fuel exhausted `HANG`.
+`nt=1`: the trace has at least one entry.  After the run the driver checks that every function scope
+of the final state has the shape `Ecal.Obj.frameOk` proves for `callFrame` (cross-check of the
+factored-out frame construction against what the evaluator really did): a failure prints
+`MODEL-FRAME-MISMATCH`, which no Go result equals.
+-/
 namespace Ecal.Drv.C05
-/-- model driver of property C05 (stub: not implemented yet) -/
-def run (_args : List String) : IO Unit := Ecal.Drv.lineLoop fun _ => "unimplemented"
+open Ecal.Drv Ecal.Drv.EvalCommon Ecal.Ev
+
+def splitSections (p : String) : List String := p.splitOn " @ "
+
+def errText : Sig → String
+  | .err e _ => s!"ERR {hexEnc (strBytes e.type)}"
+  | .ret e _ => s!"ERR {hexEnc (strBytes e.type)}"
+  | .iter e _ => s!"ERR {hexEnc (strBytes e.type)}"
+  | .plainErr _ => "ERRPLAIN"
+  | .panic => "PANIC" | .fuel => "HANG" | .unsupported w => "UNSUP " ++ w
+
+/-- outcome text of one section, or the fatal signal that ends the case -/
+def runSection (g : Nat) (prog : Program) : M String := do
+  match prog.ast with
+  | none => pure "NOPARSE"
+  | some n =>
+    match validate n with
+    | .error e => if e.isFatal then throw e else pure ("V " ++ errText e)
+    | .ok _ =>
+      match ← attemptE (Ecal.Obj.evalTop defaultFuel g n) with
+      | .ok v => do pure ("OK " ++ canonVal (← get) canonDepth v)
+      | .error e => if e.isFatal then throw e else pure (errText e)
+
+def globalDump (st : St) (g : Nat) : String :=
+  let items := ((st.scopes.getD g default).vars.map fun (k, v) =>
+    canonVal st (canonDepth - 1) (.str (strBytes k)) ++ ":" ++ canonVal st (canonDepth - 1) v)
+  " ".intercalate (items.toArray.qsort (· < ·)).toList
+
+def runCase (payload : String) : String :=
+  match (splitSections payload).mapM decodePayload with
+  | none => "bad-payload"
+  | some progs =>
+    let m : M (Nat × List String) := do
+      let g ← newScope "GlobalScope"
+      let outs ← progs.mapM (runSection g)
+      pure (g, outs)
+    let tab := progs.flatMap (·.interp)
+    let (r, st) := m.run.run { interp := tab }
+    match r with
+    | .error e => errText e
+    | .ok (g, outs) =>
+      let t := ";".intercalate outs ++ ";G " ++ globalDump st g ++ ";LOG " ++ logText st
+      if t.contains '?' then "UNSUP result shows a value the model does not know"
+      else if !(Ecal.Obj.framesOk st) then "MODEL-FRAME-MISMATCH " ++ t
+      else t ++ (if st.log.size ≥ 1 then "\tnt=1" else "")
+
+def run (_args : List String) : IO Unit := lineLoop runCase
 end Ecal.Drv.C05
